@@ -80,14 +80,15 @@ theorem C12_calls_once (x : Experiment) (hwf : x.call.WF) (b : Dict Arg)
       simp [dispatch, hm, hs, hv]
     simp only [run, spec, hb, hv, hd, if_true]
     have h1 : (assignsFrom x.doms Env.empty x.pre).map (fun e =>
-          evalSym Quirks.none x.call.params (x.call.paramNames.zip x.call.pos ++ x.call.kw) x.doms e x.body x.neg x.sel)
+          evalSym Quirks.none x.world x.call.params (x.call.paramNames.zip x.call.pos ++ x.call.kw) x.doms e x.body
+            x.neg x.sel)
         = (assignsFrom x.doms Env.empty x.pre).map (fun e => Except.ok
           (observe x.body x.neg (rowsOf x.doms x.sel)
             ((assignsFrom x.doms e (freeVars x.call.written x.pre)).map
-              (fun e' => (applyDefaults id x.call.params (b.mapVals (subst e')), e'))))) := by
+              (fun e' => (applyDefaults id x.call.params (b.mapVals (substW x.world e')), e'))))) := by
       apply List.map_congr_left
       intro e he
-      exact evalSym_none x.call hwf hb x.doms e x.pre (pre_bound_iff he) x.body x.neg x.sel
+      exact evalSym_none x.call hwf hb x.world x.doms e x.pre (pre_bound_iff he) x.body x.neg x.sel
     rw [h1, sequence_map_ok]
     simp only [Outcome.symbolic.injEq, Except.ok.injEq]
     rw [concatObs_map_observe, assignsFrom_append, List.map_flatMap]
@@ -106,7 +107,7 @@ theorem C12_calls_once (x : Experiment) (hwf : x.call.WF) (b : Dict Arg)
 theorem C12_calls_once_log (x : Experiment) (hwf : x.call.WF) (b : Dict Arg)
     (hb : bind x.call.params x.call.pos x.call.kw = .ok b) (hv : x.call.hasVar = true) :
     let cands := assignsFrom x.doms Env.empty (x.pre ++ freeVars x.call.written x.pre)
-    let tuple := fun e => applyDefaults id x.call.params (b.mapVals (subst e))
+    let tuple := fun e => applyDefaults id x.call.params (b.mapVals (substW x.world e))
     ∃ obs, run Quirks.none x = .symbolic (.ok obs) ∧
       obs.log = cands.map tuple ∧
       obs.rows = (cands.filter (fun e => (x.body (tuple e) != 0) != x.neg)).map (rowOf x.sel) := by
@@ -214,6 +215,42 @@ theorem C12_calls_once_fixed_partial (x : Experiment) (hwf : x.call.WF) (b : Dic
     run ⟨false, true⟩ x = spec x :=
   C12_calls_once_quirks ⟨false, true⟩ x hwf b hb (fun h => by cases h) (fun _ => h2)
 
+/-! ### Independence of class-level knobs and of the evaluation history -/
+
+/-- **C12_knobs_history_irrelevant.** The outcome of evaluating the query now is the same whatever class-level knobs
+the callable sets (`is_expensive`, any future `ClassVar` of `Predicate`, attributes of the function) and whatever
+worlds the same query object was evaluated in before. (True by construction of the model — the transcribed code keeps
+no state on the condition node and reads no knob; the correspondence is what ties this to the code: it draws every
+knob, mutates the candidates between evaluations of one query object and compares with this knob- and history-free
+model.) -/
+theorem C12_knobs_history_irrelevant (q : Quirks) (knobs knobs' : Knobs) (history history' : List World)
+    (x : Experiment) : evalAfter q knobs history x = evalAfter q knobs' history' x := rfl
+
+/-- **C12_truth_is_current_call.** For every knob setting and every history of earlier evaluations, on every accepted
+call outside the triggers of the quirks that are on: the evaluation invokes the callable once per candidate binding
+with the CURRENT values of the arguments written (`substW x.world`: the candidate's state now, seen through the
+attribute / method call / index written at the call site) and contributes exactly the truth value of that concrete
+call — never a value remembered from an earlier evaluation or from another candidate. -/
+theorem C12_truth_is_current_call (q : Quirks) (knobs : Knobs) (history : List World) (x : Experiment)
+    (hwf : x.call.WF) (b : Dict Arg) (hb : bind x.call.params x.call.pos x.call.kw = .ok b)
+    (h1 : q.symFnIgnoresFirst = true → trigPositional x.call = false)
+    (h2 : q.childVarsIndependent = true → trigShared x = false) :
+    evalAfter q knobs history x = spec x :=
+  C12_calls_once_quirks q x hwf b hb h1 h2
+
+/-- **C12_history.** One query object evaluated in a sequence of worlds (the candidates are mutated in between):
+every evaluation equals the specification in ITS world, for any knobs and any number of earlier evaluations. -/
+theorem C12_history (q : Quirks) (knobs : Knobs) (x : Experiment)
+    (hwf : x.call.WF) (b : Dict Arg) (hb : bind x.call.params x.call.pos x.call.kw = .ok b)
+    (h1 : q.symFnIgnoresFirst = true → trigPositional x.call = false)
+    (h2 : q.childVarsIndependent = true → trigShared x = false) (before ws : List World) :
+    runHistory q knobs x before ws = specHistory x ws := by
+  induction ws generalizing before with
+  | nil => rfl
+  | cons w r ih =>
+    simp only [runHistory, specHistory, List.map_cons, List.cons.injEq]
+    exact ⟨C12_truth_is_current_call q knobs before { x with world := w } hwf b hb h1 h2, ih _⟩
+
 /-! ### Counter-examples on the code as it is (tests by `decide` on concrete witnesses — the Lean side of the
 known findings; the same inputs are stored in `findings.d/C12.json` and replayed against the real code every run) -/
 
@@ -221,20 +258,20 @@ def bodyParity : List Nat → Nat := fun t => (t.foldl (· + ·) 0) % 2
 
 /-- `f(a, b=8)` called as `f(x)`, `x ∈ {1,2,3}`: the unchanged code binds `x` to `b` and raises `TypeError` -/
 def cexPositional : Experiment :=
-  { call := ⟨.symFn, [⟨"a", none⟩, ⟨"b", some 8⟩], [.var 0], []⟩
+  { call := ⟨.symFn, [⟨"a", none⟩, ⟨"b", some 8⟩], [.var 0 0], []⟩
     doms := fun _ => [1, 2, 3], pre := [], neg := false, body := bodyParity }
 
 /-- `f(a=9, b=8)` called as `f(x)`: every invocation is one position off, `(9, x)` instead of `(x, 8)` -/
 def cexShifted : Experiment :=
-  { cexPositional with call := ⟨.symFn, [⟨"a", some 9⟩, ⟨"b", some 8⟩], [.var 0], []⟩ }
+  { cexPositional with call := ⟨.symFn, [⟨"a", some 9⟩, ⟨"b", some 8⟩], [.var 0 0], []⟩ }
 
 /-- `f(a)` called as `f(x)`: the variable is not recognised and the body runs at construction time on the variable -/
 def cexExecuted : Experiment :=
-  { cexPositional with call := ⟨.symFn, [⟨"a", none⟩], [.var 0], []⟩ }
+  { cexPositional with call := ⟨.symFn, [⟨"a", none⟩], [.var 0 0], []⟩ }
 
 /-- `k.m(a=x)` for `def m(self, a)`: the receiver is dropped, evaluation raises `TypeError` -/
 def cexMethod : Experiment :=
-  { cexPositional with call := ⟨.symFn, [⟨"self", none⟩, ⟨"a", none⟩], [.lit 0], [("a", .var 0)]⟩ }
+  { cexPositional with call := ⟨.symFn, [⟨"self", none⟩, ⟨"a", none⟩], [.lit 0], [("a", .var 0 0)]⟩ }
 
 /-- **C12_cex_positional** (finding F-C12-1). -/
 theorem C12_cex_positional :
@@ -245,13 +282,13 @@ theorem C12_cex_positional :
     run Quirks.today cexPositional = .symbolic (.error .missingArgument) ∧
     spec cexPositional = .symbolic (.ok ⟨[[1, 8], [2, 8], [3, 8]], [[1], [3]]⟩) ∧
     run Quirks.today cexShifted = .symbolic (.ok ⟨[[9, 1], [9, 2], [9, 3]], [[2]]⟩) ∧
-    run Quirks.today cexExecuted = .concrete (.ok [.var 0]) ∧
+    run Quirks.today cexExecuted = .concrete (.ok [.var 0 0]) ∧
     run Quirks.today cexMethod = .symbolic (.error .missingArgument) := by
   decide
 
 /-- `f(a, b)` called as `f(a=x, b=x)`, `x ∈ {1,2,3}` -/
 def cexShared : Experiment :=
-  { call := ⟨.symFn, [⟨"a", none⟩, ⟨"b", none⟩], [], [("a", .var 0), ("b", .var 0)]⟩
+  { call := ⟨.symFn, [⟨"a", none⟩, ⟨"b", none⟩], [], [("a", .var 0 0), ("b", .var 0 0)]⟩
     doms := fun _ => [1, 2, 3], pre := [], neg := false, body := fun t => (t.headD 0) % 2 }
 
 /-- **C12_cex_shared** (finding F-C12-2): nine invocations instead of three, on pairs of *different* values of the
@@ -273,11 +310,11 @@ theorem C12_cex_shared :
 well-formed, outside both triggers — the hypotheses of `C12_calls_once_partial` — and the outcome is a proper subset
 of six invocations -/
 def exPred : Experiment :=
-  { call := ⟨.pred, [⟨"a", none⟩, ⟨"b", some 8⟩, ⟨"c", some 9⟩], [.var 0], [("c", .var 1)]⟩
+  { call := ⟨.pred, [⟨"a", none⟩, ⟨"b", some 8⟩, ⟨"c", some 9⟩], [.var 0 0], [("c", .var 1 0)]⟩
     doms := fun i => if i = 0 then [1, 2, 3] else [4, 5], pre := [1], neg := false, body := bodyParity }
 
 example : exPred.call.paramNames.Nodup ∧ exPred.call.kw.keys.Nodup
-    ∧ bind exPred.call.params exPred.call.pos exPred.call.kw = .ok [("a", .var 0), ("c", .var 1)]
+    ∧ bind exPred.call.params exPred.call.pos exPred.call.kw = .ok [("a", .var 0 0), ("c", .var 1 0)]
     ∧ trigPositional exPred.call = false ∧ trigShared exPred = false
     ∧ run Quirks.today exPred = .symbolic (.ok
         ⟨[[1, 8, 4], [2, 8, 4], [3, 8, 4], [1, 8, 5], [2, 8, 5], [3, 8, 5]], [[1, 4], [3, 4], [2, 5]]⟩) := by
@@ -298,6 +335,20 @@ example :
 /-- a concrete call: executed immediately with defaults applied -/
 example : run Quirks.today { exPred with call := { exPred.call with pos := [.lit 3], kw := [("c", .lit 2)] } }
     = .concrete (.ok [.lit 3, .lit 8, .lit 2]) := by
+  decide
+
+/-- `P(x.get())` with `is_expensive = True`, `x` bound by a conjunct to the left, evaluated, candidates mutated
+(1 ↦ state 2, 2 ↦ state 3, 3 ↦ state 4), evaluated again: hypotheses of `C12_history` hold and the two evaluations
+differ — the second one sees the new states (accessor 1 adds 100) and returns the complementary candidates -/
+def exHistory : Experiment :=
+  { call := ⟨.pred, [⟨"a", none⟩], [.var 0 1], []⟩
+    doms := fun _ => [1, 2, 3], pre := [0], neg := false, body := bodyParity }
+
+example : exHistory.call.paramNames.Nodup ∧ exHistory.call.kw.keys.Nodup
+    ∧ (bind exHistory.call.params exHistory.call.pos exHistory.call.kw).isOk
+    ∧ trigShared exHistory = false
+    ∧ runHistory Quirks.today [("is_expensive", true)] exHistory [] [id, fun o => o + 1]
+      = [.symbolic (.ok ⟨[[101], [102], [103]], [[1], [3]]⟩), .symbolic (.ok ⟨[[102], [103], [104]], [[2]]⟩)] := by
   decide
 
 end KrroodVerif.Pred
